@@ -114,7 +114,8 @@ def run_case(case):
             cells = None
         else:
             if mode == "periodic-exact":
-                cells = [{"kind": "ortho", "L": [6.0, 7.5, 8.25], "A": [90.0, 90.0, 90.0]}] * case["nf"]
+                # (edge lengths in ascending or descending order: c shorter or longer than b)
+                cells = [{"kind": "ortho", "L": [6.0, 7.5, 8.25] if case["seed"] % 2 else [8.25, 7.5, 6.0], "A": [90.0, 90.0, 90.0]}] * case["nf"]
             elif mode == "periodic-near-ortho":
                 # almost rectangular (angles 0.004 - 0.005 degrees off 90, off-diagonal components 4e-4 - 7e-4 nm): a triclinic cell all the same
                 cells = [{"kind": "near-ortho", "L": [6.0, 7.5, 8.25], "A": [90.004, 89.995, 90.0045]}] * case["nf"]
